@@ -850,7 +850,7 @@ def p_linspace(itp, name, args, kw, node, st):
     return r
 
 
-@prim('numpy.array', 'numpy.asarray', 'numpy.asanyarray', 'numpy.atleast_1d')
+@prim('numpy.array', 'numpy.asarray', 'numpy.asanyarray', 'numpy.atleast_1d', 'numpy.ascontiguousarray', 'numpy.asfortranarray')
 def p_array(itp, name, args, kw, node, st):
     v = args[0]
     dt = arg(args, kw, 1, 'dtype')
@@ -892,7 +892,7 @@ def p_array(itp, name, args, kw, node, st):
     r.ex = None if r.shape != () else r.ex
     if isinstance(v, Num) and v.seg is not None:
         r.seg = list(v.seg)
-    nocopy = name.split('.')[-1] in ('asarray', 'asanyarray', 'atleast_1d')
+    nocopy = name.split('.')[-1] in ('asarray', 'asanyarray', 'atleast_1d', 'ascontiguousarray', 'asfortranarray')
     cp = kw.get('copy')
     if isinstance(cp, Const) and cp.v is False:
         nocopy = True
@@ -1558,6 +1558,26 @@ def p_svd(itp, name, args, kw, node, st):
              'invariant under a unitary diagonal acting on the rows; singular vectors are degree 0')
     itp.events.append(('svd', node, a, S, Vh))
     return Tup([U, S, Vh])
+
+
+@prim('numpy.linalg.pinv', 'scipy.linalg.pinv', 'scipy.linalg.pinvh')
+def p_pinv(itp, name, args, kw, node, st):
+    """pinv(A): Moore-Penrose inverse through an svd with a RELATIVE cutoff (rcond ~ 1e-15 * max(M, N)): singular values below it are
+    treated as zero.  Exponents are those of 1/A, shape transposed."""
+    a = N(args[0])
+    if a is None:
+        return mk(itp, 'pinv', *args)
+    one = Num(zero_deg(), (), False)
+    r = num_mul(itp, one, a, node, div=True)
+    r.shape = (a.shape[1], a.shape[0]) if (a.shape is not None and len(a.shape) == 2) else a.shape
+    r.ex = None
+    r.nonneg = False
+    r.cplx = a.cplx
+    r.taint = a.taint
+    r.q = None
+    itp.events.append(('pinv', node, a, itp.cur.qname if itp.cur else ''))
+    USED.add('pinv(A): exponents of 1/A, transposed shape; singular values below a relative cutoff are dropped')
+    return r
 
 
 @prim('numpy.linalg.eigh', 'scipy.linalg.eigh')
